@@ -48,18 +48,42 @@ def reset() -> None:
     _calls = 0
 
 
-class _ShiftedDateTime(_dt.datetime):
-    @classmethod
-    def now(cls, tz=None):
+class _Meta(type):
+    """Stand-in for the datetime class inside a han module: behaves like datetime.datetime in every respect (calling it
+    builds real datetime objects, isinstance/issubclass work, class attributes and constructors are delegated) except
+    that now()/utcnow()/today() read the harness clock."""
+
+    def __call__(cls, *a, **k):
+        return _dt.datetime(*a, **k)
+
+    def __instancecheck__(cls, obj):
+        return isinstance(obj, _dt.datetime)
+
+    def __subclasscheck__(cls, sub):
+        return issubclass(sub, _dt.datetime)
+
+    def __getattr__(cls, name):
+        return getattr(_dt.datetime, name)
+
+    def __eq__(cls, other):
+        return other is cls or other is _dt.datetime
+
+    def __hash__(cls):
+        return hash(_dt.datetime)
+
+
+class _ShiftedDateTime(metaclass=_Meta):
+    @staticmethod
+    def now(tz=None):
         return _dt.datetime.fromtimestamp(_now(), tz)
 
-    @classmethod
-    def utcnow(cls):
+    @staticmethod
+    def utcnow():
         return _dt.datetime.utcfromtimestamp(_now())
 
-    @classmethod
-    def today(cls):
-        return cls.now()
+    @staticmethod
+    def today():
+        return _dt.datetime.fromtimestamp(_now())
 
 
 def shim_module(mod) -> None:
